@@ -219,7 +219,18 @@ async fn one_config(a: Args, idx: usize, proto: Proto, transport: Transport) -> 
         }
         // quiescence and accounting
         match settle(&pair, Duration::from_secs(2), Duration::from_secs(30)).await {
-            Some(u) => {
+            Some(mut u) => {
+                // something still above the baseline may be waiting for a protocol timer (QUIC idle timeout, 30 s):
+                // give it that long before calling it a leak
+                let t0 = Instant::now();
+                while leak_amount(&u, &baseline) > 0 && t0.elapsed() < Duration::from_secs(40) {
+                    tokio::time::sleep(Duration::from_millis(500)).await;
+                    u = usage(&pair);
+                }
+                if t0.elapsed() > Duration::from_secs(3) {
+                    rep.mon("slow_releases_waited_for", 1);
+                    rep.note(format!("{cfgname}: resources returned to {} above baseline only after {:.0} s", leak_amount(&u, &baseline), t0.elapsed().as_secs_f64()));
+                }
                 rep.mon("resource_samples_settled", 1);
                 batches.push((n, u));
             }
